@@ -398,11 +398,14 @@ def parse_template(path):
                     w = st2[4:].split()
                     if not w:
                         raise GenError('%s:%d empty directive' % (path, i + 1))
-                    if w[0] in ('rw', 'rw?'):
-                        cur_rw = {'optional': w[0] == 'rw?', 'rule': w[1], 'ordinal': (0 if w[2] == '#*' else int(w[2][1:])) if len(w) > 2 and w[2].startswith('#') else None}
+                    if w[0] in ('rw', 'rw?', 'rw!'):
+                        cur_rw = {'optional': w[0] == 'rw?' or (w[1] == 'R1' and w[0] != 'rw!'), 'rule': w[1], 'ordinal': (0 if w[2] == '#*' else int(w[2][1:])) if len(w) > 2 and w[2].startswith('#') else None}
                         mode = 'rw_old'
                     elif w[0] == 'closure':
                         cur_rw = {'rule': 'R5c', 'ordinal': int(w[1][1:]) if len(w) > 1 and w[1].startswith('#') else None}
+                        mode = 'rw_old'
+                    elif w[0] == 'method':
+                        cur_rw = {'rule': w[1], 'method': True, 'ordinal': 0, 'optional': True}
                         mode = 'rw_old'
                     elif w[0] == 'block':
                         cur_rw = {'rule': w[1] + 'b', 'ordinal': int(w[2][1:]) if len(w) > 2 and w[2].startswith('#') else None}
@@ -488,6 +491,9 @@ def _cfg_disabled(pre):
 
 def apply_rws(text, d, log):
     for rw in d.rws:
+        if rw.get('method'):
+            text = rewrite_method_calls(text, rw['old'].strip(), rw['new'].strip(), rw['rule'], log)
+            continue
         if rw['ordinal'] == 0:
             # every occurrence (at least one)
             n = 0
@@ -544,6 +550,81 @@ def apply_rws(text, d, log):
         log.append((rw['rule'], strip_ws(text[a:b]), strip_ws(new)))
         text = text[:a] + new.strip() + text[b:]
     return text
+
+
+def rewrite_method_calls(text, name, fn, rule, log):
+    """every `<recv>.<name>[::<T>](args)` -> `<fn>(<recv>, args)`; receiver = maximal postfix chain before the dot"""
+    while True:
+        s = sig(lex(text))
+        hit = None
+        for i, tk in enumerate(s):
+            if tk.kind == 'ident' and tk.text == name and i > 0 and s[i - 1].text == '.':
+                j = i + 1
+                # optional turbofish
+                if j + 1 < len(s) and s[j].text == ':' and s[j + 1].text == ':':
+                    j += 2
+                    if s[j].text == '<':
+                        d = 0
+                        while True:
+                            if s[j].text == '<': d += 1
+                            elif s[j].text == '>':
+                                d -= 1
+                                if d == 0: break
+                            j += 1
+                        j += 1
+                if j < len(s) and s[j].text == '(':
+                    hit = (i, j)
+                    break
+        if hit is None:
+            return text
+        i, j = hit
+        # receiver: walk back from the '.' at s[i-1]
+        k = i - 2
+        start = None
+        while k >= 0:
+            tk = s[k]
+            if tk.text in (')', ']'):
+                # find matching open backwards
+                cl, op = tk.text, {')': '(', ']': '['}[tk.text]
+                d = 0
+                while k >= 0:
+                    if s[k].text == cl: d += 1
+                    elif s[k].text == op:
+                        d -= 1
+                        if d == 0: break
+                    k -= 1
+                start = k
+                # a call `name(...)` / generic path before the paren
+                if k - 1 >= 0 and (s[k - 1].kind == 'ident' or s[k - 1].text == '>'):
+                    k -= 1
+                    continue
+                if k - 1 >= 0 and s[k - 1].text in ('.', '?'):
+                    k -= 1
+                    continue
+                break
+            if tk.kind in ('ident', 'num', 'str', 'char') or tk.text == '?':
+                start = k
+                if k - 1 >= 0 and s[k - 1].text == '.':
+                    k -= 2
+                    continue
+                if k - 2 >= 0 and s[k - 1].text == ':' and s[k - 2].text == ':':
+                    k -= 3
+                    continue
+                if k - 1 >= 0 and s[k - 1].text == '?':
+                    k -= 1
+                    continue
+                break
+            break
+        if start is None:
+            raise GenError('method rewrite: cannot find receiver of .%s(' % name)
+        rstart = s[start].start
+        recv = text[rstart:s[i - 1].start]
+        open_off = s[j].start
+        close = find_matching(text, open_off)
+        args = text[open_off + 1:close - 1]
+        new = '%s(%s%s%s)' % (fn, recv.strip(), ', ' if args.strip() else '', args)
+        log.append((rule, strip_ws(text[rstart:close]), strip_ws(new)))
+        text = text[:rstart] + new + text[close:]
 
 
 def closure_body_end(text, start):
@@ -617,8 +698,17 @@ def gen_fn(d):
         body = r2_bytestrings(body, log)
         body = apply_rws(body, d, log)
         body = apply_splices(body, d, log)
+        if 'self' in mutnames:
+            # `mut self` cannot be rebound: rename the receiver inside the body (token-level) to `vp_self`
+            out_b, last = [], 0
+            for tk in lex(body):
+                if tk.kind == 'ident' and tk.text == 'self':
+                    out_b.append(body[last:tk.start]); out_b.append('vp_self'); last = tk.end
+            out_b.append(body[last:])
+            body = ''.join(out_b)
+            log.append(('R9s', 'self', 'vp_self'))
         if mutnames:
-            body = '{' + ''.join('\n    let mut %s = %s;%s' % (n, n, GHOST_MARK) for n in mutnames) + body[1:]
+            body = '{' + ''.join('\n    let mut %s = %s;%s' % ('vp_self' if n == 'self' else n, n, GHOST_MARK) for n in mutnames) + body[1:]
     else:
         log.append(('R6', 'whole function', 'external_body'))
     head = ''
@@ -694,6 +784,9 @@ def erasure_check(gen_text, meta):
                 return False, 'cannot invert R5c (unbalanced)'
             inner = canon[k + len(n):end].strip()
             canon = re.sub(r' +', ' ', canon[:k] + old + ' ' + inner + ' ' + canon[end + 1:].lstrip())
+            continue
+        if rule == 'R9s':
+            canon = re.sub(r'\bvp_self\b', 'self', canon)
             continue
         if rule in ('R1', 'R5', 'R8', 'R2', 'R3', 'R7'):
             n = strip_ws(new)
